@@ -77,4 +77,16 @@ CLAIMS.update({
          "mode B - sampled identifiers x 16 styles compiled with six derives (VARIANTS, printed forms, from_str of renamed and original spelling, round trip, explicit names untouched).",
          "DESIGN.md §6 C07", "heck 0.5.0 is a dependency: its `transform` is modelled (transcribed) and validated by the exhaustive mode-A run, not verified from its source. ASCII identifiers only (Unicode case mapping inside heck is not modelled)."),
 })
+CLAIMS.update({
+ 'C10': ("Lean 4 proof: get/set laws of a total map (write changes one slot, read returns last write), constructors, all / all_ok, disabled => panic; correspondence over exhaustive write/read histories",
+         "lean/StrumProofs/C10.lean: get_set, set_some_iff, new_order, filled_get, from_closure_get, transform_get, all_iff / all_values, all_ok_first_err, disabled_index_panics, table_keys - for tables of any size and values of any type. "
+         "Correspondence: 1..8 enabled variants x six disabled placements; constructors with pairwise distinct values + dump; ALL set/get sequences of length 3-4 over all keys (N <= 4 quick / 6 thorough); random 40-op histories; "
+         "all() over every subset mask, all_ok() with distinct Err values; disabled variants as Index / IndexMut.",
+         "DESIGN.md §6 C10", "Field names `_<snake>` must be pairwise different for the struct to compile (rustc); the model's slots are positional."),
+ 'C13': ("Lean 4 proof: exactly-one predicate, none for disabled, try_as iff with field order, mutable write-through, snakify digit splitting; mode-A snakify + mode-B every value x every method",
+         "lean/StrumProofs/C13.lean: is_exactly_one, is_none_for_disabled, try_as_methods_spec, try_as_iff, try_as_mut_writes, snakify_eq (snake_case of the declarative word split + digit splitting), digits_split_off. "
+         "Correspondence: mode A - snakify on every identifier over {a,b,A,B,0,_} up to length 5/7; mode B - every variant value against every generated is_* / try_as_* / _ref / _mut (write through, re-read), "
+         "method names as computed by the model (a naming difference is a compile error), should-be-absent methods probed through a fallback trait.",
+         "DESIGN.md §6 C13", "ASCII identifiers only. Observed quirk mirrored by the model: `Foo_1` becomes `is_foo__1`."),
+})
 NOT_CLAIMED = {}
